@@ -13,6 +13,8 @@ after all threads are joined the evaluator is probed again (it must behave like 
 of the text the linearization ends with)."""
 from __future__ import annotations
 
+import os
+
 from .. import impl, xsched
 from ..common import HarnessFault, pmap, permuted, quiet, short
 
@@ -205,7 +207,7 @@ def plan_units(res, entry):
     res.set(f"points_default_schedule/{hname}/{mode}/{mods}", len(ex.points))
     choices = [p[3] for p in ex.points]
     units = [(hname, mode, mods, bound, cap, "ROOT")]
-    for i, (_t, _l, n_en, _c, is_exit) in enumerate(ex.points):
+    for i, (_t, _l, n_en, _c, is_exit, _g) in enumerate(ex.points):
         cost = xsched.preemptions(ex.points, i) + (0 if is_exit else 1)
         if cost > bound:
             continue
@@ -231,6 +233,8 @@ def run(res, tier):
             units += plan_units(res, entry)
         for w in pmap(_work_split, permuted(units, "c17e"), chunk=4):
             res.merge_worker(w)
+    if tier == "thorough" or os.environ.get("VERIF_TLC"):
+        tlc_calibration(res)
     res.set("states", res.cov.get("points", 0))
     res.set("transitions", res.cov.get("schedules", 0))
     res.set("traces_validated_against_impl", res.cov.get("schedules", 0))
@@ -238,6 +242,26 @@ def run(res, tier):
     res.sample({"harness": "H3", "threads": 2, "bodies": "recompile(B); call(x0)", "oracle": "linearizability vs sequential evaluator model"})
     res.assumptions += ["CPython's GIL makes one bytecode atomic; C-level state (hashlib, re, pydantic-core) has no Python-visible sharing",
                         "lexer / parser / code generator instances are thread-confined (measured on every schedule: shared_sly_instances must be 0, otherwise exploration escalates to line points inside sly/ language/ codegen/), so their steps commute and need no scheduling points"]  # fmt: skip
+
+
+def tlc_calibration(res):
+    """cross-check the explorer's schedule enumeration against TLC (see mc/tlc_calib.py)"""
+    from .. import tlc_calib
+
+    for hname, mode, bound in (("H2", "attr", 99), ("H2", "line", 2), ("H12", "line", 1)):
+        stats = {"owner_seqs": []}
+        args = (mode, xsched.CORE_MODULES)
+        with xsched.Instrument(*args):
+            v = xsched.explore(harness(hname), check, bound, stats=stats)
+        for x in v:
+            res.violation(dict(x, harness=hname, mode=mode, modules="core"))
+        facts, viol = tlc_calib.calibrate(harness(hname), check, args, bound, stats["owner_seqs"])
+        if viol:
+            res.violation(dict(viol, harness=hname, mode=mode, modules="core"))
+        res.set(f"tlc_calibration/{hname}/{mode}/bound{bound}", facts)
+        res.add("schedules", stats.get("schedules", 0) + facts.get("tlc_paths_replayed_on_impl", 0))
+        res.add("points", stats.get("points", 0))
+        res.add("tlc_paths_replayed_on_impl", facts.get("tlc_paths_replayed_on_impl", 0))
 
 
 def _work_split(units):
